@@ -57,6 +57,7 @@ func c07SigTable(evJSON []byte, auths [][]byte) []byte {
 		var ae struct {
 			Type    string `json:"type"`
 			Content struct {
+				PublicKey  string `json:"public_key"`
 				PublicKeys []struct {
 					PublicKey string `json:"public_key"`
 				} `json:"public_keys"`
@@ -67,6 +68,9 @@ func c07SigTable(evJSON []byte, auths [][]byte) []byte {
 		}
 		for _, k := range ae.Content.PublicKeys {
 			keyTexts[k.PublicKey] = true
+		}
+		if ae.Content.PublicKey != "" {
+			keyTexts[ae.Content.PublicKey] = true
 		}
 	}
 	texts := make([]string, 0, len(keyTexts))
@@ -448,7 +452,7 @@ func (c *Ctx) c07Run(ver string, ev []byte, auths [][]byte, desc string) []byte 
 	return c.Run("c07.allowed", c07Args(ver, ev, auths), "C07.allowed", c07PropOp, desc)
 }
 
-var c07PropOp = ""
+var c07PropOp = "C07.prop.allowed"
 
 func c07GenMembership(c *Ctx) {
 	// bounded-exhaustive core: version x self/other x sender membership x target membership x
